@@ -605,6 +605,30 @@ def flw14_nothing_to_delete_is_lost(ctx):
                 ctx.check('FLW-14', '%s|%s-on-every-path-after-catalogue' % (fn, name), okk and bool(pm),
                           'every path from persist_metastore to return passes %s' % name,
                           where(lst[0][1]) if lst else None)
+    # a flush that has frozen the buffers (and reset the accounted log size) runs to the end: from
+    # the read of the unflushed range every path to return passes the catalogue write and the log
+    # deletion (Some world) - there is no early exit for "nothing to do"
+    for F in flush_functions(ctx):
+        fn = F.name
+        du = DefUse(F)
+        worlds, guards = common.option_guard_worlds(F, du)
+        starts = [b.id for (b, t) in F.calls() if not b.cleanup and
+                  (norm_callee(t.func) == S + 'unflushed_wal_ids' or
+                   any(calls_matching(cb, S + 'unflushed_wal_ids') for cb in P.closures_in_text(t.func or '')))]
+        pm = calls_matching(F, S + 'persist_metastore')
+        dws = calls_matching(F, S + 'delete_wal_segments')
+        if not starts or not pm or not dws:
+            continue
+        for (label, removed, outcome) in storage_some_worlds(F, worlds):
+            cfg = CFG(F, removed_edges=removed)
+            rets = set(cfg.return_blocks())
+            for name, lst in (('persist_metastore', pm), ('delete_wal_segments', dws)):
+                lb = [b.id for (b, t) in lst]
+                okk = all(cfg.must_pass_after(sb, lb, rets) for sb in starts if sb in cfg.reachable())
+                ctx.check('FLW-14', '%s|%s-on-every-path-after-freeze' % (fn, name), okk,
+                          'every path from the read of the unflushed range to return passes %s: a '
+                          'flush cannot end early after the log-size counter was reset, leaving '
+                          'segments nobody accounts for' % name, where(lst[0][1]))
     # compact returns prepare_compact's value; prepare_compact returns delete_partitions' value
     pc = P.one('Storage::prepare_compact')
     du = DefUse(pc)
